@@ -1,0 +1,30 @@
+//go:build verif
+
+package btree
+
+// VShape is the nested shape of a (sub)tree: items in node order, children in
+// node order, and whether the node is owned by the copy-on-write context of the
+// tree it was reached from.
+type VShape struct {
+	Items    []Item
+	Children []*VShape
+	Owned    bool
+}
+
+// VerifShape returns the shape of the tree (nil for an empty tree), its degree
+// and its recorded length.
+func (t *BTree) VerifShape() (root *VShape, degree int, length int) {
+	var walk func(n *node) *VShape
+	walk = func(n *node) *VShape {
+		var s = &VShape{Owned: n.cow == t.cow}
+		s.Items = append(s.Items, n.items...)
+		for _, c := range n.children {
+			s.Children = append(s.Children, walk(c))
+		}
+		return s
+	}
+	if t.root != nil {
+		root = walk(t.root)
+	}
+	return root, t.degree, t.length
+}
